@@ -167,11 +167,18 @@ def hAdd : Handler Unit :=
   { f := fun _ a => { writes := [(2, u32 (a.regs 0 + a.regs 1))], bit := decide (a.regs 0 + a.regs 1 > 4294967295), loads := [], stores := [] }
     mask := .fresh }
 
-/-- `v_addc_co_u32 v2, vcc, v0, v1, vcc`; GCN3 builds a fresh VCC from `oldVCC`, CDNA3 updates in place -/
+/-- `v_addc_co_u32 v2, vcc, v0, v1, vcc`; GCN3 builds a fresh VCC from `oldVCC`, CDNA3 updates in place.
+    The carry-out is transcribed from each ALU as it is: CDNA3 `result > 0xFFFFFFFF`; GCN3
+    `src0 > math.MaxUint32 - carry - src1` evaluated in `uint64`, which wraps when `src1 = 0xffffffff` and
+    the carry-in is 1 (the carry-out is then lost — an ISA-conformance matter of C03, lane-local, so not a
+    C06 violation). -/
 def hAddc (m : MaskMode) : Handler Unit :=
   { f := fun _ a =>
       let c := if a.mbit then 1 else 0
-      { writes := [(2, u32 (a.regs 0 + a.regs 1 + c))], bit := decide (a.regs 0 + a.regs 1 + c > 4294967295), loads := [], stores := [] }
+      let cout := match m with
+        | .fresh => decide (a.regs 0 > (18446744073709551616 + 4294967295 - c - a.regs 1) % 18446744073709551616)
+        | _ => decide (a.regs 0 + a.regs 1 + c > 4294967295)
+      { writes := [(2, u32 (a.regs 0 + a.regs 1 + c))], bit := cout, loads := [], stores := [] }
     mask := m }
 
 /-- `v_cmp_lt_u32 vcc, v0, v1` -/
